@@ -381,6 +381,61 @@ func runC17(c *run.Ctx) {
 		}
 	}
 
+	// (d) order independence on a zero-value Policy{} too (not every builder initialises the tables itself): every
+	//     history of length <=3 (thorough 4) over the calls that matter there, grouped by abstract state
+	if c.Shard == 0 {
+		lit := []C{{Op: "AllowURLSchemesMatching", Re: `^(ftp|tel)$`}, {Op: "RequireSandboxOnIFrame", Ints: []int{2}},
+			attrsOn([]string{"href", "src", "sandbox"}, "", "a", "img", "iframe"), {Op: "AllowURLSchemes", Names: []string{"http"}},
+			opt("RequireParseableURLs", true), opt("AllowRelativeURLs", true), opt("RequireNoFollowOnLinks", true), opt("AddSpaceWhenStrippingTag", true),
+			{Op: "AllowComments"}, {Op: "AllowDataAttributes"}, {Op: "RewriteSrc", Fn: "proxy"}, opt("RequireCrossOriginAnonymous", true),
+			{Op: "SkipElementsContent", Names: []string{"b"}}, {Op: "AllowElementsContent", Names: []string{"iframe"}},
+			{Op: "AllowStyles", Names: []string{"color"}, Scope: "global"}, els("b", "p"), {Op: "AllowElementsMatching", Re: reMy}}
+		ld := 3
+		if !c.Quick() {
+			ld = 4
+		}
+		type first struct {
+			vec  []string
+			hist []C
+		}
+		seenLit := map[string]first{}
+		var lh []C
+		var lrec func()
+		lrec = func() {
+			if c.Expired() {
+				return
+			}
+			if len(lh) > 0 {
+				sl := spec.Spec{Name: "h", Base: "literal", Calls: lh}
+				vec, pm := probeVector(spec.Build(sl), c17Probes)
+				c.Eval()
+				c.Transitions++
+				c.Traces++
+				if pm == "" {
+					key := spec.ViewOf(sl).Canon()
+					if f, ok := seenLit[key]; !ok {
+						seenLit[key] = first{vec, append([]C{}, lh...)}
+					} else if k := firstDiff(f.vec, vec); k >= 0 {
+						c.Violate("equivalence|literal-base", fmt.Sprintf("on a zero-value Policy{} two rule-equivalent histories behave differently: %s and %s: probe %s: %s vs %s",
+							histStr(f.hist), histStr(lh), run.Q(c17Probes[k]), run.Q(f.vec[k]), run.Q(vec[k])), c17Case{Mode: "equivalence", Base: "literal", A: f.hist, B: append([]C{}, lh...)})
+						c.Outcome("violation|equivalence")
+					} else {
+						c.Outcome("literal-base|same-state-same-behaviour")
+					}
+				}
+			}
+			if len(lh) == ld {
+				return
+			}
+			for _, call := range lit {
+				lh = append(lh, call)
+				lrec()
+				lh = lh[:len(lh)-1]
+			}
+		}
+		lrec()
+	}
+
 	// (c') the same from two non-initial policies (links enabled; UGCPolicy): use it, extend it by one call, and it must
 	//      behave like a fresh one extended by that call
 	linksPrefix := []C{attrsOn([]string{"href", "src", "rel", "target", "sandbox", "crossorigin"}, "", "a", "img", "iframe"),
@@ -602,17 +657,21 @@ func replayC17(raw json.RawMessage) (bool, string) {
 	json.Unmarshal(raw, &x)
 	switch x.Mode {
 	case "equivalence":
-		va, pm := probeVector(spec.Build(spec.Spec{Base: "new", Calls: x.A}), c17Probes)
+		eb := "new"
+		if x.Base != "" {
+			eb = x.Base
+		}
+		va, pm := probeVector(spec.Build(spec.Spec{Base: eb, Calls: x.A}), c17Probes)
 		if pm != "" {
 			return true, "panic: " + pm
 		}
 		if x.B == nil {
 			return false, "no second history"
 		}
-		if spec.ViewOf(spec.Spec{Base: "new", Calls: x.A}).Canon() != spec.ViewOf(spec.Spec{Base: "new", Calls: x.B}).Canon() {
+		if spec.ViewOf(spec.Spec{Base: eb, Calls: x.A}).Canon() != spec.ViewOf(spec.Spec{Base: eb, Calls: x.B}).Canon() {
 			return false, "histories are not rule-equivalent under the current model"
 		}
-		vb, pm := probeVector(spec.Build(spec.Spec{Base: "new", Calls: x.B}), c17Probes)
+		vb, pm := probeVector(spec.Build(spec.Spec{Base: eb, Calls: x.B}), c17Probes)
 		if pm != "" {
 			return true, "panic: " + pm
 		}
